@@ -2,6 +2,7 @@ import LinOp.Core.Parse
 import LinOp.C03.Model
 import LinOp.C03.OpParse
 import LinOp.C03.Getitem
+import LinOp.C03.FrontGuard
 /-! Line-protocol driver for the C03 model (core only). -/
 open LinOp LinOp.C03 LinOp.Parse
 
@@ -91,9 +92,10 @@ def stepLine (_ : Unit) (line : String) : Unit × String :=
       let expr := (rest.dropWhile (· ≠ "|")).drop 1
       match pShape bsh, items.mapM pItem, parseOp 64 expr with
       | some bshape, some idx, some (op, []) =>
-        match frontEnd op bshape idx with
-        | some (sh, vals) => s!"S={showNats sh}|V={showInts vals}"
-        | none => "none"
+        match frontEndG op bshape idx with
+        | .ok sh vals => s!"S={showNats sh}|V={showInts vals}"
+        | .tooMany => "too-many"
+        | .notModelled => "none"
       | _, _, _ => "bad-op"
     | ["bdal", m, n, rs, re, cs, ce] =>
       match [m, n, rs, re, cs, ce].mapM String.toNat? with
